@@ -207,6 +207,16 @@ def enum_long_chains(tier):
     for n in sizes:
         out.append({"n": n, "edges": [[i, i + 1] for i in range(n - 1)]})
         out.append({"n": n, "edges": [[i, i + 2] for i in range(n - 2)]})
+    # hubs: one event similar to exactly 255 / 256 / 257 / 512 others (a long call overlapping every short one), listed first, last or in
+    # the middle; everything similar to everything (257 events); a hub listed after its 1300 partners
+    for leaves in ([255, 256, 257, 512] if tier == "quick" else [127, 128, 255, 256, 257, 511, 512, 513, 1024, 65536 // 16]):
+        for hub in (0, leaves, leaves // 2):
+            out.append({"n": leaves + 1, "edges": [[min(hub, i), max(hub, i)] for i in range(leaves + 1) if i != hub]})
+        out.append({"n": leaves + 3, "edges": [[0, i] for i in range(1, leaves + 1)] + [[leaves + 1, leaves + 2]]})
+    out.append({"n": 257, "edges": [[i, j] for i in range(257) for j in range(i + 1, 257)]})
+    for n in ([1300] if tier == "quick" else [1300, 3000]):
+        out.append({"n": n, "edges": [[i, n - 1] for i in range(n - 1)]})
+        out.append({"n": n, "edges": [[i, n - 2] for i in range(n - 2)] + [[n - 2, n - 1]]})
     return out
 
 
